@@ -437,19 +437,33 @@ func c24DryRun(r *core.Run, p *core.Prog) {
 	if n < 5 {
 		r.Undecided(rule, "MergeDatabases:sinks", p.Rel(f.Decl.Pos()), fmt.Sprintf("only %d modifying calls found in MergeDatabases", n))
 	}
-	// the counters are maintained in the dry run as well
-	dryCounts := 0
-	core.Walk(f.Decl.Body, false, func(x ast.Node) bool {
-		if ifs, ok := x.(*ast.IfStmt); ok && core.SelField(info, ifs.Cond) == fDry {
-			core.Walk(ifs.Body, false, func(y ast.Node) bool {
-				if inc, ok := y.(*ast.IncDecStmt); ok && strings.HasPrefix(core.Str(inc.X), "summary.Days") {
-					dryCounts++
-				}
-				return true
-			})
+	// the counters are maintained in the dry run as well: among the statements a dry run can reach there must be an
+	// increment of the copied-days and of the rebuilt-days counter (fields resolved through the type checker, so the
+	// increments may sit in a helper, behind a pointer, in a switch or in an if-chain)
+	dryFields := map[string]bool{}
+	for id, node := range g.Nodes {
+		if node == nil || !seen[id] {
+			continue
 		}
-		return true
-	})
+		var target ast.Expr
+		switch s := node.(type) {
+		case *ast.IncDecStmt:
+			if s.Tok == token.INC {
+				target = s.X
+			}
+		case *ast.AssignStmt:
+			if s.Tok == token.ADD_ASSIGN && len(s.Lhs) == 1 {
+				target = s.Lhs[0]
+			}
+		}
+		if target == nil {
+			continue
+		}
+		if fv := core.SelField(info, target); fv != nil && (fv.Name() == "DaysCopied" || fv.Name() == "DaysRebuilt") {
+			dryFields[fv.Name()] = true
+		}
+	}
+	dryCounts := len(dryFields)
 	r.Check(rule, "MergeDatabases:dry-run-reports-planned-actions", p.Rel(f.Decl.Pos()), dryCounts >= 2, "a dry run must count the days it would copy / rebuild")
 }
 
